@@ -7,7 +7,7 @@ import vlib
 
 def mc_phase(c, module, cfg=None, workers=4, require_actions=True, timeout=1800, heap="4g"):
     """Model-check a bounded configuration; every action of the model must be taken (vacuity guard)."""
-    r = vlib.tlc_ok(module, cfg=cfg, workers=workers, coverage=True, timeout=timeout, heap=heap)
+    r = vlib.tlc_ok(module, cfg=cfg, workers=workers, coverage=require_actions, timeout=timeout, heap=heap)
     c.add_tlc(r)
     if require_actions:
         zero = r.coverage_zero_actions()
